@@ -26,6 +26,7 @@
     * `readExactLoop_fuel`, `writeAllLoop_fuel` + the termination note of §9;
     * `bitmap_invariant_needed` — the constructor invariant cannot be dropped.
 -/
+import VmMem.Model.Copy
 import VmMem.Props.C01
 import VmMem.Props.C02
 import VmMem.Props.C03
@@ -965,6 +966,41 @@ example : (runGuest C03.exMem (.readExactVolatileFrom 0x1002
     ⟨.fd, [1, 2, 3, 4, 5, 6, 7, 8, 9], 0, [.short 1, .eintr, .fail]⟩ (U + 5))).isPanic = false :=
   no_panic_guest _ C03.exMem_GWF _ trivial
 
+/-! ### `alignment` (volatile_memory.rs) — defect D8 and its repair (2fc7148)
+
+`alignment(addr)` was `addr & (!addr + 1)`: a plain `+`, which overflows exactly when `addr = 0`.
+A zero-length access at offset 0 of an on-demand Xen grant region reaches it with the region's null
+base pointer.  After the repair it is `addr & addr.wrapping_neg()`, which is what the model's
+`alignment` on `BitVec 64` computes for every word: total, no overflow branch left. -/
+/-- the function as it stood: `!addr` on a 64-bit word is `U - 1 - addr`; then a plain `+ 1` -/
+def alignmentBeforeFix (a : Nat) : Res Nat := do
+  let n ← addP (U - 1 - a) 1
+  pure (a &&& n)
+
+theorem alignmentBeforeFix_panics_iff (a : Nat) (h : a < U) : alignmentBeforeFix a = .panic ↔ a = 0 := by
+  unfold alignmentBeforeFix addP
+  simp only [U] at *
+  by_cases h0 : a = 0
+  · subst h0; simp
+  · have : 2 ^ 64 - 1 - a + 1 < 2 ^ 64 := by omega
+    simp [this, h0]
+
+/-- the repaired function wraps: at the null address it is 0 (so every width pass of
+    `copy_slice_volatile` is skipped) and it never panics -/
+theorem alignment_null : alignment 0 = 0 := by decide
+
+theorem alignment_wraps (a : BitVec 64) : alignment a = a &&& (-a) := by
+  unfold alignment; rw [BitVec.neg_eq_not_add]; rfl
+
+/-- a copy of zero bytes issues no access whatever the two addresses are (null included) -/
+theorem copyPass_zero (align w off : Nat) (hw : w > 0) : copyPass align w 0 off = ([], 0, off) := by
+  unfold copyPass
+  have h : copyLoop w 0 off = ([], 0, off) := by unfold copyLoop; simp
+  split <;> simp [h]
+
+theorem copyPlan_zero (src dst : BitVec 64) : copyPlan src dst 0 = [] := by
+  simp [copyPlan, copyPass_zero]
+
 #print axioms bitmap_invariant_needed
 #print axioms no_panic_bitmap
 #print axioms no_panic_slice
@@ -995,3 +1031,7 @@ example : (runGuest C03.exMem (.readExactVolatileFrom 0x1002
 
 end C07
 end VmMem
+#print axioms VmMem.C07.alignmentBeforeFix_panics_iff
+#print axioms VmMem.C07.alignment_null
+#print axioms VmMem.C07.alignment_wraps
+#print axioms VmMem.C07.copyPlan_zero
